@@ -203,6 +203,25 @@ ResizeReturn(pre, post, ev) ==
      /\ ev.ret = "false" => Sub(post, s).dim = Sub(pre, s).dim
 
 (***************************************************************************)
+(* Requests outside the exact lattice (continuous-parameter programs): the *)
+(* harness evaluates the specification's rule on the recorded state before *)
+(* the call (U rho U^dagger with U = exp(generator of Gates.tla) at a      *)
+(* cutoff 60 levels above the one the library chose; sum_i (K_i x I) rho   *)
+(* (K_i x I)^dagger with factors in the order given) and logs, in units of *)
+(* 1e-9:  tail = population of that ideal result beyond the chosen cutoff, *)
+(*        dev  = largest entry-wise difference to the recorded result.     *)
+(* C10: the automatically chosen cutoff loses at most the documented       *)
+(*      threshold (1e-6 of the population; 1e-5 allowed here) and the      *)
+(*      result is the ideal one up to the corresponding amplitude error.   *)
+(* C06: the channel is the stated map.                                     *)
+(***************************************************************************)
+HasMdl(ev) == "mdl" \in DOMAIN ev
+CutoffAdequate(ev) ==
+  (HasMdl(ev) /\ ev.res = "ok" /\ ev.mdl.k = "cut") => (ev.mdl.tail <= 10000 /\ ev.mdl.dev <= 3000000)
+ChannelMatchesModel(ev) ==
+  (HasMdl(ev) /\ ev.res = "ok" /\ ev.mdl.k = "kraus") => ev.mdl.dev <= 10000
+
+(***************************************************************************)
 (* C20  blocks are joined only when needed; bystanders are untouched       *)
 (***************************************************************************)
 Addressed(pre, ev) == Rng(ev.addr) \cup MayMeasure(pre, ev)
@@ -231,7 +250,7 @@ Verdict(pre, post, ev) ==
   {n \in {"MergeUnifies", "OneHome", "IndexNamesHome", "HandlesAgree", "BackPointers", "NoDupNoEmpty", "Isolation",
           "TagMatchesRepr", "ShapeIsProduct", "MembersShareLevel", "NumericOK",
           "MeasuredGone", "OnlyMeasurementDestroys", "OutcomeKeys", "DestroyedRejected",
-          "RejectedIsNoop", "StructuralKeepsJoint", "ResizeReturn",
+          "RejectedIsNoop", "StructuralKeepsJoint", "ResizeReturn", "CutoffAdequate", "ChannelMatchesModel",
           "BystanderUntouched", "MergeOnlyAddressed", "SingleNeverGrows", "MeasuredLeaves"} :
      ~ CASE n = "OneHome" -> OneHome(post)
          [] n = "IndexNamesHome" -> OneHome(post) => IndexNamesHome(post)
@@ -251,6 +270,8 @@ Verdict(pre, post, ev) ==
          [] n = "RejectedIsNoop" -> RejectedIsNoop(pre, post, ev)
          [] n = "StructuralKeepsJoint" -> StructuralKeepsJoint(ev)
          [] n = "ResizeReturn" -> ResizeReturn(pre, post, ev)
+         [] n = "CutoffAdequate" -> CutoffAdequate(ev)
+         [] n = "ChannelMatchesModel" -> ChannelMatchesModel(ev)
          [] n = "BystanderUntouched" -> (ok /\ OneHome(pre) /\ OneHome(post)) => BystanderUntouched(pre, post, ev)
          [] n = "MergeOnlyAddressed" -> (ok /\ OneHome(pre) /\ OneHome(post)) => MergeOnlyAddressed(pre, post, ev)
          [] n = "SingleNeverGrows" -> (ok /\ OneHome(pre) /\ OneHome(post)) => SingleNeverGrows(pre, post, ev)
@@ -262,5 +283,6 @@ ClauseProperty ==
    TagMatchesRepr |-> "C07", ShapeIsProduct |-> "C07", MembersShareLevel |-> "C07", NumericOK |-> "C07",
    MeasuredGone |-> "C05", OnlyMeasurementDestroys |-> "C05", OutcomeKeys |-> "C05", DestroyedRejected |-> "C05",
    RejectedIsNoop |-> "C17", StructuralKeepsJoint |-> "C02", ResizeReturn |-> "C10",
+   CutoffAdequate |-> "C10", ChannelMatchesModel |-> "C06",
    BystanderUntouched |-> "C20", MergeOnlyAddressed |-> "C20", SingleNeverGrows |-> "C20", MeasuredLeaves |-> "C20"]
 =============================================================================
